@@ -67,6 +67,7 @@ def run(chk):
     chk.rule("ALLOC", "no allocation size tainted by asset bytes without a dominating bound")
     chk.rule("EOF", "a loop consuming an opaque read leaves when the read returns 0")
     reviewed = load_reviewed()
+    deep = chk.tier == 'thorough'     # deeper unrolling of the loaders' loops
     inv = {}
     from . import tapeinv
     _e, _h = tapeinv.window_methods(prog, with_helpers=True)
@@ -150,14 +151,14 @@ def run(chk):
                             chk.count("alloc-sites")
         # wrappers
         for entry, args in (("Emulator::<H>::load_rom", [Opaque("romset")]),):      # the public entry; helpers are inlined
-            w = ld.make_loader_walker(prog, ln, opaque=common_opaque, loop_bound=3)
+            w = ld.make_loader_walker(prog, ln, opaque=common_opaque, loop_bound=5 if deep else 3)
             st = emu_state(w, m)
             fn = prog.fn(prog.fn_path("rustzx_core", entry))
             rs = w.run(fn, [Ref(ld.EMU, (), True)] + args, genv={"H": ld.H}, state=st)
             collect("%s@%s" % (entry.split("::")[-1], m), rs)
         # fast loader
         w = ld.make_loader_walker(prog, ln, opaque=common_opaque + [ln.bus("write_internal"), prog.fn_path("rustzx_core", "ZXMemory::read")] +
-                                  [p for p in prog.fns if "ZXTape<A> as" in p and (p.endswith("::next_block") or p.endswith("::next_block_byte"))], loop_bound=3)
+                                  [p for p in prog.fns if "ZXTape<A> as" in p and (p.endswith("::next_block") or p.endswith("::next_block_byte"))], loop_bound=5 if deep else 3)
         st = emu_state(w, m)
         rs = ld.run_loader(prog, ln, w, "fastload::tap::fast_load_tap", st, extra_args=[])
         collect("fast_load_tap@%s" % m, rs)
